@@ -408,7 +408,24 @@ func c16NumberAgrees(tok, csvNum string) (ok bool, frac float64, err error) {
 	// or two of q, so 4e-15*|q| (~18 ulps) covers them. It matters only where a
 	// row's common scale prints huge quotients such as 1099511627776.0.
 	tol := half*(1+1e-9) + math.Abs(q)*4e-15
+	c16NoteWorst(d/half, tok, csvNum)
 	return d <= tol, d / half, nil
+}
+
+var (
+	c16WorstMu   sync.Mutex
+	c16WorstFrac float64
+)
+
+// c16NoteWorst records the accepted or rejected number pair farthest from
+// exact agreement (evidence only).
+func c16NoteWorst(frac float64, tok, csvNum string) {
+	c16WorstMu.Lock()
+	defer c16WorstMu.Unlock()
+	if frac > c16WorstFrac {
+		c16WorstFrac = frac
+		kit.Note("c16.bs.worst-number-pair", fmt.Sprintf("text %s csv %s: %.6f half-units", tok, csvNum, frac))
+	}
 }
 
 type c16TextCellWarn struct {
